@@ -118,6 +118,9 @@ def _install_backend(S, t, light, backend):
 
 def body(S, t, part):
     m = t.machine
+    if "dim_to" in part:
+        m.variables.set_machine_var("brightness", 1.0)
+        t.advance_time_and_run(0.01)
     S.now_symbolic(t.loop)
     light = m.lights[part["light"]]
     if part.get("rgbw_style"):
@@ -163,7 +166,10 @@ def body(S, t, part):
     for i, op in enumerate(ops):
         now = t.loop.time()
         if op == "color":
-            col = palette[(i + part.get("rot", 0)) % len(palette)] if "rot" in part else palette[S.choice("colour%d" % i, len(palette))]
+            if "cols" in part:
+                col = palette[part["cols"][i]]
+            else:
+                col = palette[(i + part.get("rot", 0)) % len(palette)] if "rot" in part else palette[S.choice("colour%d" % i, len(palette))]
             prio = integer("priority%d" % i, -3, 20)
             key = KEYS[choice("key%d" % i, len(KEYS))]
             fade = fade_ms("fade_ms%d" % i) if boolean("fades%d" % i) else 0
@@ -198,6 +204,14 @@ def body(S, t, part):
                     lingering.append(model[key][1])      # a fade above it may have started from a blend that contains this colour
             light.remove_from_stack_by_key(key, fade_ms=fade)
             model.pop(key, None)
+        elif op == "dim":
+            # the operator changes the brightness setting (machine variable -> LightController._update_brightness): it applies to every
+            # colour sent to the hardware from now on, also to colours that were sent before with the old factor
+            factor = part["dim_to"]
+            m.variables.set_machine_var("brightness", factor)
+            t.advance_time_and_run(0.01)
+            if m.light_controller.brightness_factor != factor:
+                raise Violation("harness", "dim", "brightness factor %s after setting %s" % (m.light_controller.brightness_factor, factor))
         elif op == "clear":
             light.clear_stack()
             model.clear()
@@ -286,6 +300,11 @@ def scenarios(tier):
             parts.append(dict(light="l_rgb", backend=b, ops=["color", "color", "remove"], rot=len(parts), profile=True))
             parts.append(dict(light="l_rgb", backend=b, ops=["color", "remove", "color"], rot=len(parts), profile=True, brightness=0.5))
         parts.append(dict(light="l_rgbw", backend="virtual", ops=["color", "color"], rot=2, rgbw_style="duck_rgb", profile=True))
+        # the brightness setting changes between two uses of the same colour (each command changes the logical colour, so each is sent)
+        samekey = {"key0": 0, "key2": 0, "key3": 0}
+        for b in ("virtual", "direct", "batch"):
+            parts.append(dict(light="l_rgb", backend=b, ops=["color", "dim", "color", "color"], cols=[0, None, 1, 0], dim_to=0.5, pin=samekey))
+        parts.append(dict(light="l_rgb", backend="soft", ops=["color", "dim", "color", "color"], cols=[4, None, 2, 4], dim_to=0.25, pin=samekey, profile=True))
         for k, style in enumerate(("white_only", "min_rgb", "duck_rgb")):
             parts.append(dict(light="l_rgbw", backend="virtual", ops=["color", "color"], rot=k + 1, rgbw_style=style))
             parts.append(dict(light="l_rgbw", backend="virtual", ops=["color", "remove"], rot=k + 2, rgbw_style=style))
@@ -302,6 +321,10 @@ def scenarios(tier):
             for s3 in (["color", "color", "remove"], ["color", "remove", "color"], ["color", "color", "clear"]):
                 parts.append(dict(light="l_rgb", backend=b, ops=["color"] + s3, profile=True))
                 parts.append(dict(light="l_rgb", backend=b, ops=["color"] + s3, profile=True, brightness=0.5))
+        for b in ("virtual", "soft", "direct", "batch"):
+            for cols in ([0, None, 1, 0], [3, None, 4, 3], [4, None, 2, 4]):
+                parts.append(dict(light="l_rgb", backend=b, ops=["color", "dim", "color", "color"], cols=cols, dim_to=0.5, pin={"key0": 0, "key2": 0, "key3": 0}))
+                parts.append(dict(light="l_rgb", backend=b, ops=["color", "dim", "color", "color"], cols=cols, dim_to=0.25, pin={"key0": 0, "key2": 0, "key3": 0}, profile=True))
         for style in ("white_only", "min_rgb", "duck_rgb"):
             for b in ("virtual", "soft"):
                 parts.append(dict(light="l_rgbw", backend=b, ops=["color", "color", "remove", "color"], rgbw_style=style))
